@@ -32,13 +32,15 @@ Definition strip_whitespace (data : list N) : list N :=
 
 (* 2. If data's code point length divides by 4 leaving no remainder, then: if data ends with one or
       two U+003D (=) code points, then remove them from data. *)
+Definition ends_with_equals (data : list N) : bool :=
+  match rev data with c :: _ => c =? 61 | [] => false end.
+Definition remove_last (data : list N) : list N := rev (tl (rev data)).
 Definition strip_padding (data : list N) : list N :=
   if N.of_nat (length data) mod 4 =? 0 then
-    match rev data with
-    | 61 :: 61 :: r => rev r
-    | 61 :: r => rev r
-    | _ => data
-    end
+    if ends_with_equals data then
+      let data1 := remove_last data in
+      if ends_with_equals data1 then remove_last data1 else data1
+    else data
   else data.
 
 (* 4. If data contains a code point that is not one of U+002B (+), U+002F (/), ASCII alphanumeric,
